@@ -102,9 +102,9 @@ def doParse (incl : String) (ws : List String) : String :=
     if s.twice then
       let (out, rest1) := parseTwice orc (incl == "1") decls files args args2
       match out with
-      | .done _ => render orc decls out ++ " ||" ++ String.join (rest1.map (fun r => " " ++ hexOf r))
-      | _ => render orc decls out
-    else render orc decls (parse orc (incl == "1") decls files args)
+      | .done _ => renderStore orc (incl == "1") decls out ++ " ||" ++ String.join (rest1.map (fun r => " " ++ hexOf r))
+      | _ => renderStore orc (incl == "1") decls out
+    else renderStore orc (incl == "1") decls (parse orc (incl == "1") decls files args)
   | _, _, _, _, _ => "bad-op"
 
 /-- the exported fatal entry points: `fx <msg|err|iferr|ifnil|write> <def|out|fail>`; where the text appears follows the
